@@ -278,8 +278,12 @@ class SummaryActions(object):
     ]
     source_col_map = dict(zip(source_groupby_columns, groupby_columns))
     prev_group_columns = [source_col_map[f.colRef.summarySourceCol] for f in prev_group_fields]
-    visible_formula_columns = [c for c in formula_columns if c.colId in colid_to_field_map]
-    formula_fields = [colid_to_field_map[c.colId] for c in visible_formula_columns]
+    # (Match by the id the column had in the original table: in a summary table that already
+    # existed, a column with another formula may hold that id, and ours got a different one.)
+    visible = [(ci, c) for (ci, c) in zip(formula_colinfo, formula_columns)
+               if ci.colId in colid_to_field_map]
+    visible_formula_columns = [c for (_, c) in visible]
+    formula_fields = [colid_to_field_map[ci.colId] for (ci, _) in visible]
     self.docmodel.update(formula_fields + prev_group_fields,
                          colRef=[c.id for c in visible_formula_columns + prev_group_columns])
 
